@@ -64,6 +64,7 @@ def history(E, k, alphabet, obligations, contexts=True, sym_coef=True, with_ref=
 
 
 def _lp(E, m, S, tag):
+    E.note(_lp_only=True)       # read by ops.op_add_reactions: argument shapes whose aftermath only C01 has an opinion on
     lp_equiv(E, m, S, "lp=fba" + tag)
 
 
